@@ -3,10 +3,13 @@
 package main
 
 import (
+	"context"
 	"crypto/sha256"
 	"encoding/hex"
+	"errors"
 	"fmt"
 	"io"
+	"net"
 	"net/http"
 	"os"
 	"path/filepath"
@@ -14,6 +17,7 @@ import (
 	"sort"
 	"strings"
 	"sync"
+	"sync/atomic"
 	"testing"
 	"testing/synctest"
 	"time"
@@ -89,6 +93,16 @@ type vfWorld struct {
 	panicProp  string   // property a handler panic is attributed to in this run (default C19; C13/C14 under store/IdP faults)
 }
 
+var vfCurNet atomic.Pointer[vfNet]
+
+func vfGlobalDial(ctx context.Context, network, addr string) (net.Conn, error) {
+	n := vfCurNet.Load()
+	if n == nil {
+		return nil, errors.New("sim: no simulated network")
+	}
+	return n.Dial(ctx, network, addr)
+}
+
 func vfNewWorld(t *testing.T, prop, tier string, tape *vfTape) *vfWorld {
 	w := &vfWorld{t: t, prop: prop, tier: tier, tape: tape, start: time.Now(),
 		syms: map[string]string{}, symN: map[string]int{}, probes: map[string]int{}, faults: map[string]int{},
@@ -96,7 +110,10 @@ func vfNewWorld(t *testing.T, prop, tier string, tape *vfTape) *vfWorld {
 	w.net = vfNewNet()
 	w.sched = vfNewSched(w)
 	tr := http.DefaultTransport.(*http.Transport)
-	tr.DialContext = w.net.Dial
+	// one stable dial function for the life of the process: a transport the code under test cloned in an earlier world
+	// (a package-level pool, say) keeps it and still reaches the network of the CURRENT world
+	vfCurNet.Store(w.net)
+	tr.DialContext = vfGlobalDial
 	tr.DisableKeepAlives = true
 	tr.Proxy = nil
 	tr.TLSClientConfig = nil
